@@ -13,6 +13,22 @@ from .ir import AnalysisBroken
 _cell_serial = [0]
 
 
+# branch census of the abstract interpretation (adequacy of the shape families): condition -> outcomes seen.
+# Enabled by the environment variable GMG_COVER=<file>; report.Check.finish merges the map into that file.
+import os as _os
+COVER = {} if _os.environ.get("GMG_COVER") else None
+
+
+def cover(e, outcome, fr):
+    if e.get("k") in ("Bin",) and e.get("op") in ("&&", "||"):
+        return  # operands are recorded separately
+    l = e.get("l")
+    if not l or not isinstance(l[0], str) or l[0].startswith("/"):
+        return
+    key = "%s:%s|%s|%s" % (l[0], l[1], fr.fn.get("qn", "?") if fr is not None and fr.fn else "?", ir.show(e)[:100])
+    COVER.setdefault(key, set()).add(bool(outcome))
+
+
 class Cell:
     __slots__ = ("v", "name", "serial")
 
@@ -179,7 +195,7 @@ class Interp:
             self.exec(s["init"], fr)
             n = 0
             while True:
-                if s["c"] is not None and not self.truth(self.rvalue(s["c"], fr), s["c"], fr):
+                if s["c"] is not None and not self.truth(self.rvalue(s["c"], fr), s["c"], fr, loop=True):
                     break
                 try:
                     self.exec(s["body"], fr)
@@ -195,7 +211,7 @@ class Interp:
             return
         if k == "While":
             n = 0
-            while self.truth(self.rvalue(s["c"], fr), s["c"], fr):
+            while self.truth(self.rvalue(s["c"], fr), s["c"], fr, loop=True):
                 try:
                     self.exec(s["body"], fr)
                 except BreakEx:
@@ -215,7 +231,7 @@ class Interp:
                     break
                 except ContinueEx:
                     pass
-                if not self.truth(self.rvalue(s["c"], fr), s["c"], fr):
+                if not self.truth(self.rvalue(s["c"], fr), s["c"], fr, loop=True):
                     break
                 n += 1
                 if n > self.loop_limit:
@@ -301,10 +317,14 @@ class Interp:
             fr.vars[v["id"]] = Cell(self.dom.default_value(t, v, fr), v["name"])
 
     # ------------------------------------------------------------------ expressions
-    def truth(self, v, e, fr):
+    def truth(self, v, e, fr, loop=False):
         if isinstance(v, bool):
+            if COVER is not None and not loop:
+                cover(e, v, fr)
             return v
         if isinstance(v, int):
+            if COVER is not None and not loop:
+                cover(e, v != 0, fr)
             return v != 0
         return self.dom.choose(v, e, fr)
 
@@ -421,17 +441,25 @@ class Interp:
         if op == "&&":
             a = self.rvalue(e["a"], fr)
             if isinstance(a, (bool, int)):
+                if COVER is not None:
+                    cover(e["a"], bool(a), fr)
                 if not a:
                     return False
                 b = self.rvalue(e["b"], fr)
+                if COVER is not None and isinstance(b, (bool, int)):
+                    cover(e["b"], bool(b), fr)
                 return bool(b) if isinstance(b, (bool, int)) else b
             return self.dom.lazy_and(a, e, fr)
         if op == "||":
             a = self.rvalue(e["a"], fr)
             if isinstance(a, (bool, int)):
+                if COVER is not None:
+                    cover(e["a"], bool(a), fr)
                 if a:
                     return True
                 b = self.rvalue(e["b"], fr)
+                if COVER is not None and isinstance(b, (bool, int)):
+                    cover(e["b"], bool(b), fr)
                 return bool(b) if isinstance(b, (bool, int)) else b
             return self.dom.lazy_or(a, e, fr)
         if op == ",":
